@@ -85,13 +85,13 @@ func (c *Ctx) Pick(q, t int) int {
 	return t
 }
 
-func (c *Ctx) SetRule(r string)        { c.rule = r }
-func (c *Ctx) Assume(a string)         { c.mu.Lock(); c.assumptions = append(c.assumptions, a); c.mu.Unlock() }
-func (c *Ctx) SetExhaustive(b bool)    { c.exhaustive = b }
-func (c *Ctx) Evaluations() int64      { c.mu.Lock(); defer c.mu.Unlock(); return c.evaluations }
-func (c *Ctx) ViolationCount() int     { c.mu.Lock(); defer c.mu.Unlock(); return len(c.violations) }
-func (c *Ctx) DistinctCount() int      { c.mu.Lock(); defer c.mu.Unlock(); return len(c.distinct) }
-func (c *Ctx) Counter(k string) int64  { c.mu.Lock(); defer c.mu.Unlock(); return c.counters[k] }
+func (c *Ctx) SetRule(r string)       { c.rule = r }
+func (c *Ctx) Assume(a string)        { c.mu.Lock(); c.assumptions = append(c.assumptions, a); c.mu.Unlock() }
+func (c *Ctx) SetExhaustive(b bool)   { c.exhaustive = b }
+func (c *Ctx) Evaluations() int64     { c.mu.Lock(); defer c.mu.Unlock(); return c.evaluations }
+func (c *Ctx) ViolationCount() int    { c.mu.Lock(); defer c.mu.Unlock(); return len(c.violations) }
+func (c *Ctx) DistinctCount() int     { c.mu.Lock(); defer c.mu.Unlock(); return len(c.distinct) }
+func (c *Ctx) Counter(k string) int64 { c.mu.Lock(); defer c.mu.Unlock(); return c.counters[k] }
 
 // Eval counts n evaluated cases.
 func (c *Ctx) Eval(n int) {
@@ -339,14 +339,14 @@ func (c *Ctx) finish() int {
 		cov["samples"] = []interface{}{}
 	}
 	ev := map[string]interface{}{
-		"property_id": c.ID,
-		"tier":        c.Tier,
-		"seed":        c.Seed,
-		"level":       c.Level,
-		"coverage":    cov,
-		"assumptions": c.assumptions,
-		"wall_s":      wall,
-		"violations":  unknown,
+		"property_id":              c.ID,
+		"tier":                     c.Tier,
+		"seed":                     c.Seed,
+		"level":                    c.Level,
+		"coverage":                 cov,
+		"assumptions":              c.assumptions,
+		"wall_s":                   wall,
+		"violations":               unknown,
 		"known_finding_violations": len(c.violations) - unknown,
 	}
 	if c.assumptions == nil {
